@@ -175,8 +175,13 @@ pub fn on_store() {
     });
 }
 
+fn on_store_all() {
+    on_store();
+    crate::wake::on_store();
+}
+
 pub fn install_hooks() {
-    virtio_drivers::verif_hooks::set_store_hook(Some(on_store));
+    virtio_drivers::verif_hooks::set_store_hook(Some(on_store_all));
 }
 
 // ---------------------------------------------------------------------------------------------
@@ -214,6 +219,7 @@ fn err_str(e: Error) -> String {
 impl<const N: usize> Live<N> {
     pub fn new(indirect: bool, event_idx: bool, ap: bool) -> Result<Self, String> {
         hal::reset();
+        crate::wake::disable();
         STORE.with(|s| *s.borrow_mut() = None);
         let ts = TState::new(DeviceType::Block, 0, 1, N as u32);
         let (mut t, st) = ModelTransport::new(ts);
@@ -293,7 +299,8 @@ impl<const N: usize> Live<N> {
         let outs: Vec<usize> = out_lens.iter().map(|l| self.new_buf(*l, 0xEE)).collect();
         let fmt = |v: &Vec<usize>, b: &Vec<Vec<u8>>| if v.is_empty() { "-".to_string() } else { v.iter().map(|i| format!("{}:{}", i, b[*i].len())).collect::<Vec<_>>().join(",") };
         let op = format!("queue add in={} out={}{}", fmt(&ins, &self.bufs), fmt(&outs, &self.bufs), if self.hostile { " nost=1" } else { "" });
-        let (_, _, avail_before, _) = self.q.verif_state();
+        let st_before = self.q.verif_state();
+        let (_, _, avail_before, _) = st_before;
         let free_before = self.q.available_desc();
         let r = {
             // SAFETY (of the call under test): buffers live in `self.bufs` until popped.
@@ -320,12 +327,18 @@ impl<const N: usize> Live<N> {
                 c.tag(format!("add:{:?}", e));
                 // C03: refused exactly when no buffers or capacity insufficient, without side effects
                 let k = in_lens.len() + out_lens.len();
-                let need_refuse = k == 0 || if self.indirect { free_before == 0 || k > N } else { k > free_before };
+                // (an empty buffer is refused by a panic on the direct path today; an error is as good,
+                // provided it has no side effects)
+                let has_empty = in_lens.iter().chain(out_lens.iter()).any(|l| *l == 0);
+                let need_refuse = has_empty || k == 0 || if self.indirect { free_before == 0 || k > N } else { k > free_before };
                 if !need_refuse {
                     c.fail(format!("[C03] add of {} buffers refused ({:?}) although {} descriptors were free", k, e, free_before));
                 }
                 if !halev.is_empty() || evs != "-" {
                     c.fail(format!("[C04] refused add had side effects: {}", evs));
+                }
+                if self.q.verif_state() != st_before {
+                    c.fail(format!("[C03] refused add changed the queue's bookkeeping (num_used, free_head, avail_idx, last_used_idx): {:?} -> {:?}", st_before, self.q.verif_state()));
                 }
                 err_str(e)
             }
@@ -407,7 +420,12 @@ impl<const N: usize> Live<N> {
                 format!("ok token={}", t)
             }
         };
-        c.step(op, format!("{} | {} | {}", res, evs, self.priv_str()));
+        if res == "panic" {
+            // the call was abandoned part-way: the case ends here and nothing after it is compared
+            c.step(op, "panic".to_string());
+        } else {
+            c.step(op, format!("{} | {} | {}", res, evs, self.priv_str()));
+        }
         self.drain_store_oracle(c);
         tok
     }
@@ -642,6 +660,22 @@ pub struct QCfg {
     pub soak: bool,
 }
 
+/// like `gen_lens`, but (1 in 25, direct path only: `add_indirect` hands empty buffers to the platform)
+/// one buffer is empty: the direct path must refuse it by a clean panic or an error WITHOUT side
+/// effects, never by an error that leaves descriptors taken or buffers shared
+fn gen_lens_maybe_empty(rng: &mut Rng, k: usize, direct: bool) -> (Vec<usize>, Vec<usize>) {
+    let (mut i, mut o) = gen_lens(rng, k);
+    if direct && k > 0 && rng.chance(1, 25) {
+        let j = rng.below(k as u64) as usize;
+        if j < i.len() {
+            i[j] = 0;
+        } else {
+            o[j - i.len()] = 0;
+        }
+    }
+    (i, o)
+}
+
 fn gen_lens(rng: &mut Rng, k: usize) -> (Vec<usize>, Vec<usize>) {
     let len = |r: &mut Rng| match r.below(10) {
         0 => 1,
@@ -691,8 +725,11 @@ pub fn structured<const N: usize>(cfg: QCfg, id: String, mut rng: Rng) -> Case {
                 _ => 1,
             };
             let k = k.min(N + 1);
-            let (i, o) = gen_lens(&mut rng, k);
+            let (i, o) = gen_lens_maybe_empty(&mut rng, k, !(cfg.indirect && k > 1));
             l.add(&mut c, &i, &o, &mut rng);
+            if c.steps.last().map(|(_, o)| o.starts_with("panic")).unwrap_or(false) {
+                break;
+            }
             if rng.chance(1, 2) {
                 l.check_notify(&mut c);
             }
@@ -752,22 +789,26 @@ pub fn structured<const N: usize>(cfg: QCfg, id: String, mut rng: Rng) -> Case {
         l.check_counts(&mut c);
     }
     // drain: everything outstanding is completed and consumed; the ledger must balance
-    l.dev_fetch(&mut c);
-    while !l.dev.inflight.is_empty() {
-        let lc = rng.next() as u32;
-        l.dev_complete(&mut c, 0, lc, &mut rng);
-    }
-    let mut guard = 0;
-    while let Some(t) = l.q.peek_used() {
-        if !l.held.contains_key(&t) || guard > 2 * N + 4 {
-            break;
+    // (not after a panicking call: the queue was abandoned part-way and the case ends there)
+    let dead = c.steps.last().map(|(_, o)| o.starts_with("panic")).unwrap_or(false);
+    if !dead {
+        l.dev_fetch(&mut c);
+        while !l.dev.inflight.is_empty() {
+            let lc = rng.next() as u32;
+            l.dev_complete(&mut c, 0, lc, &mut rng);
         }
-        l.pop(&mut c, t);
-        guard += 1;
-    }
-    l.check_counts(&mut c);
-    if !l.held.is_empty() && !c.steps.last().map(|(_, o)| o.starts_with("panic")).unwrap_or(false) {
-        c.fail(format!("[C03] {} chains could not be drained", l.held.len()));
+        let mut guard = 0;
+        while let Some(t) = l.q.peek_used() {
+            if !l.held.contains_key(&t) || guard > 2 * N + 4 {
+                break;
+            }
+            l.pop(&mut c, t);
+            guard += 1;
+        }
+        l.check_counts(&mut c);
+        if !l.held.is_empty() && !c.steps.last().map(|(_, o)| o.starts_with("panic")).unwrap_or(false) {
+            c.fail(format!("[C03] {} chains could not be drained", l.held.len()));
+        }
     }
     c.nontrivial = l.popped > 0;
     c.tag(format!("wraps={}", l.added / 65536));
@@ -1039,7 +1080,45 @@ pub fn run_structured(ctx: &Ctx, prop: &str, nq: usize, nt: usize) -> Vec<Case> 
     filter_for(prop, cases)
 }
 
+/// ledger failures of the driver-level streams that are about C04's subject matter (share / unshare
+/// pairing, ranges, directions, device addresses) — DMA allocation bookkeeping is C06/C09's
+fn c04_relevant(f: &str) -> bool {
+    let f = f.to_lowercase();
+    f.starts_with("ledger:") && (f.contains("share") || f.contains("direction")) && !f.contains("dma_")
+}
+
 pub fn run(ctx: &Ctx, prop: &str) -> (Vec<Case>, String, bool, BTreeMap<String, String>) {
-    let cases = run_structured(ctx, prop, 1500, 60000);
-    (cases, RULE.to_string(), false, BTreeMap::new())
+    let mut cases = run_structured(ctx, prop, 1500, 60000);
+    let mut rule = RULE.to_string();
+    if prop == "C04" {
+        // driver level: every driver's traffic runs over the same recording platform; its share/unshare
+        // ledger (exactly once, same range, same direction, returned address) is C04 for the buffers
+        // the drivers own (receive buffers, request headers, event buffers)
+        let mut extra: Vec<Case> = vec![];
+        extra.extend(crate::c14_blk::run(ctx).0);
+        extra.extend(crate::c15_console::run(ctx).0);
+        extra.extend(crate::c16_net::run(ctx).0);
+        extra.extend(crate::c17_vsock::run(ctx).0);
+        extra.extend(crate::c19_events::run_drivers(ctx));
+        for c in extra.iter_mut() {
+            c.oracle_failures.retain(|f| c04_relevant(f));
+            for f in c.oracle_failures.iter_mut() {
+                *f = format!("[C04] {}", f);
+            }
+            c.id = format!("C04-via-{}", c.id);
+            c.tag("driver-level");
+        }
+        cases.extend(extra);
+        // transport level: every driver constructed over the real MMIO transport (legacy and modern
+        // register interface); the queue addresses the device model latched must be DMA addresses
+        let mut mm = crate::c08_mmio::run_mmio(ctx).0;
+        for c in mm.iter_mut() {
+            c.oracle_failures.retain(|f| f.starts_with("[C04]"));
+            c.id = format!("C04-via-{}", c.id);
+            c.tag("mmio-level");
+        }
+        cases.extend(mm);
+        rule.push_str("; driver level: the block, console, network, socket and event-queue streams of C14/C15/C16/C17/C19 run over the recording platform and their share/unshare ledger failures (unshare with another range / direction / address, twice, never shared) are reported here; transport level: every driver is constructed over the real MMIO transport against a register-level device model and each queue address it latched must lie in live DMA memory (consecutive DMA regions differ in both address halves)");
+    }
+    (cases, rule, false, BTreeMap::new())
 }
